@@ -392,6 +392,10 @@ func init() {
 		slot := time.Duration(pl.SecondsPerSlot) * time.Second
 		pl.MaxSyncMessageDelay = slot / 4
 		pl.SyncAggregationDelay = slot * 7 / 12
+		// the goroutine that set a job up may not get the CPU again before the job has run or been withdrawn
+		if p.Pct(60) {
+			pl.StallAfterSchedulePct = []int{5, 20, 50}[p.Pick(3)]
+		}
 		return pl
 	}})
 }
